@@ -100,8 +100,9 @@ def run(prop, prop_file, specs, oracles, trusted, rule, extra=None, level="proof
             for orc in oracles:
                 try:
                     fired.extend(orc(meta, kw, r))
-                except Exception as ex:  # an oracle bug must not look like a pass
-                    fired.append(("oracle-error", "%s: %r" % (orc.__name__, ex)))
+                except Exception as ex:  # a bug in the search must neither look like a violation nor pass silently
+                    rep.notes.append("oracle error in %s on %s: %r" % (orc.__name__, cid, ex))
+                    rep.cov["oracle_errors"] = rep.cov.get("oracle_errors", 0) + 1
             for key, msg in fired:
                 found_any = True
                 rep.violation({"property": prop, "case": line, "meta": meta, "observed": msg,
@@ -112,7 +113,15 @@ def run(prop, prop_file, specs, oracles, trusted, rule, extra=None, level="proof
         if spec.get("group_oracle"):
             parsed = {harness.case_id(l): gen.parse_result(impl.get(harness.case_id(l), [])) for l in cases}
             lines = {harness.case_id(l): l for l in cases}
-            for cid, key, msg in spec["group_oracle"](metas, parsed):
+            try:
+                fired_groups = spec["group_oracle"](metas, parsed)
+            except Exception as ex:   # a bug in the search must neither look like a violation nor pass silently
+                import traceback
+                rep.notes.append("group oracle error (that part of the failing-input search did not run): %r %s" %
+                                 (ex, traceback.format_exc()[-400:]))
+                rep.cov["oracle_errors"] = rep.cov.get("oracle_errors", 0) + 1
+                fired_groups = []
+            for cid, key, msg in fired_groups:
                 found_any = True
                 rep.violation({"property": prop, "case": lines.get(cid), "meta": metas[cid][0], "observed": msg,
                                "impl_result": impl.get(cid, [])[:12]}, found=True,
